@@ -73,6 +73,11 @@ VAR_GLOBAL
   zq_g : LINT := 1;
   zq_b : BOOL := FALSE;
   zq_f : LINT := 2;
+  zq_i : INT := 7;
+  zq_s8 : SINT := 1;
+  zq_u8 : USINT := 1;
+  zq_w : WORD := 16#10;
+  zq_re : REAL := 1.5;
 END_VAR
 VAR_GLOBAL RETAIN
   zq_r : LINT := 3;
@@ -493,6 +498,15 @@ impl Fx {
     /// Runs one cycle of the real runtime (which applies queued writes and forces) and projects
     /// variables and the process image.  A cycle that does not come back within the budget is
     /// released through the debugger and reported as the probe `cycle.blocked`.
+    /// One runtime cycle (pending debugger writes are applied at its start), then the value of a global and
+    /// the errors of the cycle: the observation of the debugger-write stage of C03 (dbgwrite.rs).
+    pub(crate) fn cycle_and_global(&mut self, name: &str) -> (Option<Value>, Vec<String>) {
+        let r = self.h.cycle();
+        (self.h.runtime().storage().get_global(name).cloned(), r.errors.iter().map(|e| format!("{e:?}")).collect())
+    }
+    pub(crate) fn inputs(&self) -> Vec<u8> {
+        self.h.runtime().io().inputs().to_vec()
+    }
     fn heavy(&mut self) -> BTreeMap<String, String> {
         let mut m = BTreeMap::new();
         let done = Arc::new(AtomicBool::new(false));
